@@ -356,7 +356,8 @@ pub fn run(wide: bool) {
     }
 
     // strings over a small alphabet with multi-byte characters, all strings up to max_len
-    let alphabet = ['a', 'é', '漢', '7', '-', ' '];
+    // (a character outside the BMP: one character, two UTF-16 units, four UTF-8 bytes)
+    let alphabet = ['a', 'é', '漢', '7', '-', ' ', '\u{1F600}'];
     let max_len = if wide { 5 } else { 4 };
     let mut strings: Vec<String> = vec![String::new()];
     let mut frontier: Vec<String> = vec![String::new()];
